@@ -338,7 +338,7 @@ def check_generate(p, case, timeout_ms=240000):
 def make_cases(tier, rnd):
     thorough = tier == "thorough"
     cases = []
-    hosts = ["fresh", "host", "repeat"]
+    hosts = ["fresh", "host", "repeat", "literal-labels"]
     W = 10 if thorough else 6
     for n in range(1, W + 1):
         for m in range(1, W + 1):
